@@ -1,12 +1,15 @@
 #![recursion_limit = "1024"]
 mod obs;
 mod replay;
+mod ureplay;
+mod uworld;
 mod world;
 
 use std::io::{BufRead, Write};
 use std::sync::atomic::{AtomicUsize, Ordering};
 use std::sync::{Arc, Mutex};
 
+use serde::de::DeserializeOwned;
 use serde_json::json;
 
 fn arg_val(args: &[String], name: &str) -> Option<String> {
@@ -19,27 +22,21 @@ fn main() {
     match args.get(1).map(|s| s.as_str()) {
         Some("replay") => cmd_replay(&args[2..]),
         _ => {
-            eprintln!("usage: mh replay <paths.jsonl> [--obs FILE] [--result FILE] [--threads N] [--only ID]");
+            eprintln!("usage: mh replay <paths.jsonl> [--obs FILE] [--result FILE] [--threads N] [--only ID] [--obs-sample N]");
             std::process::exit(2);
         }
     }
 }
 
-/// Direction A.  Input: first line {"cfg": ..}, then one path per line.
-fn cmd_replay(args: &[String]) {
-    let file = &args[0];
-    let obs_file = arg_val(args, "--obs");
-    let result_file = arg_val(args, "--result");
-    let only: Option<u64> = arg_val(args, "--only").and_then(|s| s.parse().ok());
-    let threads: usize = arg_val(args, "--threads").and_then(|s| s.parse().ok()).unwrap_or(8);
-    let obs_sample: u64 = arg_val(args, "--obs-sample").and_then(|s| s.parse().ok()).unwrap_or(0);
+/// Paths file: header {"cfg": .., "kind": ..}, label table, node table, paths (compact),
+/// or one self-contained {"id", "steps"} record per line.
+fn load_paths<P: DeserializeOwned>(file: &str, only: Option<u64>) -> (serde_json::Value, Vec<replay::PathRec<P>>) {
     let f = std::io::BufReader::new(std::fs::File::open(file).expect("open paths"));
     let mut lines = f.lines();
     let head: serde_json::Value = serde_json::from_str(&lines.next().expect("header").unwrap()).expect("header json");
-    let cfg: world::Cfg = serde_json::from_value(head["cfg"].clone()).expect("cfg");
-    let mut labels: Vec<replay::Step> = vec![];
-    let mut nodes: Vec<Arc<replay::Post>> = vec![];
-    let mut paths: Vec<replay::PathRec> = vec![];
+    let mut labels: Vec<replay::Step<P>> = vec![];
+    let mut nodes: Vec<Arc<P>> = vec![];
+    let mut paths: Vec<replay::PathRec<P>> = vec![];
     for l in lines {
         let l = l.unwrap();
         if l.trim().is_empty() {
@@ -49,7 +46,7 @@ fn cmd_replay(args: &[String]) {
         if let Some(ls) = v.get("labels") {
             labels = serde_json::from_value(ls.clone()).expect("labels");
         } else if v.get("n").is_some() {
-            let p: replay::Post = serde_json::from_value(v["post"].clone()).expect("post");
+            let p: P = serde_json::from_value(v["post"].clone()).expect("post");
             nodes.push(Arc::new(p));
         } else if let Some(es) = v.get("e") {
             let id = v["id"].as_u64().unwrap();
@@ -63,19 +60,29 @@ fn cmd_replay(args: &[String]) {
                 .map(|p| {
                     let li = p[0].as_u64().unwrap() as usize;
                     let ni = p[1].as_u64().unwrap() as usize;
-                    let mut s = labels[li].clone();
-                    s.post = Some(nodes[ni].clone());
-                    s
+                    let l = &labels[li];
+                    replay::Step { a: l.a.clone(), t: l.t.clone(), x: l.x.clone(), post: Some(nodes[ni].clone()) }
                 })
                 .collect();
             paths.push(replay::PathRec { id, steps });
         } else if v.get("steps").is_some() {
-            let p: replay::PathRec = serde_json::from_value(v).expect("path json");
+            let p: replay::PathRec<P> = serde_json::from_value(v).expect("path json");
             if only.map(|o| o == p.id).unwrap_or(true) {
                 paths.push(p);
             }
         }
     }
+    (head, paths)
+}
+
+/// run one path; second argument: record observations?
+type Runner<P> = Arc<dyn Fn(&replay::PathRec<P>, bool) -> (replay::PathResult, Vec<String>) + Send + Sync>;
+
+fn run_all<P: Send + Sync + 'static>(paths: Vec<replay::PathRec<P>>, run: Runner<P>, args: &[String]) {
+    let obs_file = arg_val(args, "--obs");
+    let result_file = arg_val(args, "--result");
+    let threads: usize = arg_val(args, "--threads").and_then(|s| s.parse().ok()).unwrap_or(8);
+    let obs_sample: u64 = arg_val(args, "--obs-sample").and_then(|s| s.parse().ok()).unwrap_or(0);
     let paths = Arc::new(paths);
     let next = Arc::new(AtomicUsize::new(0));
     let results = Arc::new(Mutex::new(Vec::new()));
@@ -87,7 +94,7 @@ fn cmd_replay(args: &[String]) {
         let next = next.clone();
         let results = results.clone();
         let obs_out = obs_out.clone();
-        let cfg = cfg.clone();
+        let run = run.clone();
         let want_obs = obs_file.is_some();
         hs.push(std::thread::spawn(move || loop {
             let i = next.fetch_add(1, Ordering::SeqCst);
@@ -97,13 +104,11 @@ fn cmd_replay(args: &[String]) {
             // fast pass without recording; executions that do not conform (and a sample
             // of those that do) are re-executed - the schedule is deterministic - with the
             // observation recorder on
-            let mut rec = obs::Recorder::new(false);
-            let r = replay::run_path(&cfg, &paths[i], &mut rec);
+            let (r, _) = run(&paths[i], false);
             let sampled = obs_sample > 0 && (paths[i].id % obs_sample == 0);
             if want_obs && (!r.conform || sampled) {
-                let mut rec = obs::Recorder::new(true);
-                let _ = replay::run_path(&cfg, &paths[i], &mut rec);
-                obs_out.lock().unwrap().push((paths[i].id, std::mem::take(&mut rec.lines)));
+                let (_, lines) = run(&paths[i], true);
+                obs_out.lock().unwrap().push((paths[i].id, lines));
             }
             results.lock().unwrap().push(r);
         }));
@@ -140,4 +145,35 @@ fn cmd_replay(args: &[String]) {
     println!("{}", serde_json::to_string(&json!({"paths": total, "conform": conform, "hung": hung, "steps": steps})).unwrap());
     // threads parked inside abandoned worlds never finish: leave without joining them
     std::process::exit(0);
+}
+
+fn cmd_replay(args: &[String]) {
+    let file = &args[0];
+    let only: Option<u64> = arg_val(args, "--only").and_then(|s| s.parse().ok());
+    let head: serde_json::Value = {
+        let f = std::io::BufReader::new(std::fs::File::open(file).expect("open paths"));
+        serde_json::from_str(&f.lines().next().expect("header").unwrap()).expect("header json")
+    };
+    match head["kind"].as_str().unwrap_or("managed") {
+        "unmanaged" => {
+            let (head, paths) = load_paths::<ureplay::UPost>(file, only);
+            let cfg: uworld::UCfg = serde_json::from_value(head["cfg"].clone()).expect("cfg");
+            let run: Runner<ureplay::UPost> = Arc::new(move |p, obs| {
+                let mut rec = ureplay::URecorder::new(obs);
+                let r = ureplay::run_path(&cfg, p, &mut rec);
+                (r, rec.lines)
+            });
+            run_all(paths, run, args)
+        }
+        _ => {
+            let (head, paths) = load_paths::<replay::Post>(file, only);
+            let cfg: world::Cfg = serde_json::from_value(head["cfg"].clone()).expect("cfg");
+            let run: Runner<replay::Post> = Arc::new(move |p, obs| {
+                let mut rec = obs::Recorder::new(obs);
+                let r = replay::run_path(&cfg, p, &mut rec);
+                (r, rec.lines)
+            });
+            run_all(paths, run, args)
+        }
+    }
 }
